@@ -49,9 +49,12 @@ def rdNext (pending : List Bytes) (fused : Bool) (room : Nat) : RdRes :=
             connection, which has `Close` but no `CloseWrite` (websocket / KCP / QUIC tunnel conn) — the way
             mapping/base.go, target_handler.go `createTunnelRWC` and socks5_tunnel.go build the tunnel side;
 * `split` — `NewReadWriteCloser(r, w, closeFn)` with distinct reader and writer objects, the writer has `Close` only;
-* `none`  — `NewReadWriteCloser(r, w, closeFn)`, the writer has neither `CloseWrite` nor `Close`. -/
+* `none`  — `NewReadWriteCloser(r, w, closeFn)`, the writer has neither `CloseWrite` nor `Close`;
+* `prod`  — like `same`, built by the REAL `getTunnelReaderWriter` + `createTunnelRWC` of target_handler.go over a
+            stream processor and a `net.Conn`;
+* `wcw`   — `NewReadWriteCloserWithCloseWrite(r, w, closeFn, closeWriteFn)`: a wrapper that forwards the half-close. -/
 inductive Kind where
-  | cw | same | split | none
+  | cw | same | split | none | prod | wcw
 deriving DecidableEq, Repr, Inhabited
 
 /-- `tryCloseWrite(conn)` followed, for the wrapper kinds, by `readWriteCloser.CloseWrite()`
@@ -61,6 +64,7 @@ not see the end of this direction until the final `Close` — and nothing else m
 connection, in particular its read side stays open. -/
 def tryCloseWrite : Kind → Bool
   | .cw => true
+  | .wcw => true
   | _ => false
 
 /-- How a scripted side ends; `hold`: a PASSIVE peer — its Read blocks until the relay tells it that the
@@ -191,6 +195,11 @@ def tcpRunFast (A B : EP) (σ : List TTok) : TcpSt :=
   let s2 := repeatStep (fun s => tcpStep A B s .a) (stepsFor A.reads) s1
   let s3 := repeatStep (fun s => tcpStep A B s .b) (stepsFor B.reads) s2
   tcpStep A B s3 .a
+
+/-- `tunnel.Tunnel.runDataCopy`: the close reason derived from the relay result (an injected error is never
+`io.EOF`): any error → "error", none → "normal". -/
+def tunnelReason (serr rerr : DErr) : String :=
+  if serr != .none || rerr != .none then "error" else "normal"
 
 /-- What the fake sockets and the caller observe. -/
 structure TcpObs where
